@@ -35,15 +35,15 @@ func TestVerif_C12_Cubbyhole(t *testing.T) {
 			break
 		}
 	}
-	r.Require("cubbyhole_cells_written", 60)
-	r.Require("cross_token_reads", 1500)
-	r.Require("cross_token_reads_empty", 1500)
-	r.Require("own_reads_returning_own_value", 60)
-	r.Require("cross_token_lists", 300)
-	r.Require("segment_probe_reads", 50)
-	r.Require("cubbyhole_phys_ops_checked", 2000)
-	r.Require("tokens_with_chosen_id", 2)
-	r.Require("reads_after_other_token_revoked", 10)
+	r.Require("cubbyhole_cells_written", 130)
+	r.Require("cross_token_reads", 7000)
+	r.Require("cross_token_reads_empty", 7000)
+	r.Require("own_reads_returning_own_value", 500)
+	r.Require("cross_token_lists", 7000)
+	r.Require("segment_probe_reads", 2500)
+	r.Require("cubbyhole_phys_ops_checked", 19000)
+	r.Require("tokens_with_chosen_id", 4)
+	r.Require("reads_after_other_token_revoked", 3500)
 }
 
 type c12Cell struct {
